@@ -1,6 +1,6 @@
 #!/bin/bash
 # tools/reverify_seeded.sh [names...]: re-run every kept mutant against /repo HEAD with the check of its property
-# (quick tier) and print one line per mutant. Applies patches to /repo and undoes them: do not run while another
+# (quick tier, or the tier named in meta.json) and print one line per mutant. Applies patches to /repo and undoes them: do not run while another
 # check is using /repo.
 here=$(cd "$(dirname "$0")/.." && pwd); cd $here
 names="$@"; [ -z "$names" ] && names=$(ls -d seeded/*/ | xargs -n1 basename)
@@ -8,11 +8,12 @@ for n in $names; do
   d=$here/seeded/$n
   prop=$(python3 -c "import json;print(json.load(open('$d/meta.json'))['property'])")
   alt=$(python3 -c "import json;print(json.load(open('$d/meta.json')).get('also_run',''))")
+  tier=$(python3 -c "import json;print(json.load(open('$d/meta.json')).get('tier','quick'))")
   if ! git -C /repo apply --check $d/patch.diff 2>/dev/null; then echo "SEEDED $n prop=$prop PATCH-DOES-NOT-APPLY"; continue; fi
   git -C /repo apply $d/patch.diff
   res=""
   for p in $prop $alt; do
-    ./check $p quick > /tmp/reverify.out 2>&1; rc=$?
+    ./check $p $tier > /tmp/reverify.out 2>&1; rc=$?
     sigs=$(grep -E '^  sig=' /tmp/reverify.out | sed -E 's/^  sig=([^ ]*) occ.*/\1/' | cut -c1-70 | head -3 | tr '\n' ' ')
     res="$res $p:exit=$rc [$sigs]"
   done
